@@ -345,6 +345,8 @@ func Run(target string, data []byte) (res *Result) {
 					return viol("nil-key/peer-id", "ExtractPublicKey returned (nil,nil)")
 				}
 				_ = id.MatchesPublicKey(pk)
+				// a key that was accepted can be used: verification answers, it does not panic
+				_, _ = pk.Verify([]byte("x"), make([]byte, 64))
 			}
 		}
 		if id2, err := peer.IDB58Decode(string(data)); err == nil {
@@ -366,6 +368,9 @@ func Run(target string, data []byte) (res *Result) {
 			}
 			if _, ierr := peer.IDFromPublicKey(k); ierr != nil {
 				return viol("id-from-key/keys", "%v", ierr)
+			}
+			if vok, _ := k.Verify([]byte("x"), make([]byte, 64)); vok {
+				return viol("verifies-zero-signature/keys", "an all-zero signature verified")
 			}
 		} else if k != nil {
 			return viol("key-and-error/keys", "UnmarshalPublicKey returned a key and an error")
@@ -455,6 +460,17 @@ func Seeds(target string) [][]byte {
 		valid = append(valid, b, enc, ib, enc[:34], enc[:35], enc[:36])
 	case "signed-msg":
 		valid = append(valid, smb)
+		// the same message with a sender id whose embedded key data has another length (cut, or with trailing bytes),
+		// signature and body left well-formed
+		rawPub, _ := k.GetPublic().Raw()
+		for _, n := range []int{0, 1, 31, 33, 34, 63, 64, 65, 96} {
+			kd := append(append([]byte{}, rawPub...), bytes.Repeat([]byte{0}, 64)...)[:n]
+			km := append([]byte{0x08, 0x01, 0x12, byte(n)}, kd...)
+			m := sm.CloneVT()
+			m.FromPeerId = base58.Encode(append([]byte{0x00, byte(len(km))}, km...))
+			b, _ := m.MarshalVT()
+			valid = append(valid, b)
+		}
 	case "envelope":
 		env, err := envelope.BuildEnvelope(gen.NewDetStream([]byte("seed")), "ctx", []byte("payload"), []crypto.PubKey{gen.Key(0).GetPublic(), gen.Key(1).GetPublic()},
 			&envelope.EnvelopeConfig{Threshold: 1, GrantConfigs: []*envelope.EnvelopeGrantConfig{{ShareCount: 1, KeypairIndexes: []uint32{0}}, {ShareCount: 1, KeypairIndexes: []uint32{1}}}})
@@ -487,10 +503,28 @@ func Seeds(target string) [][]byte {
 		}
 	case "peer-id":
 		valid = append(valid, []byte(gen.PeerID(1)), []byte(gen.PeerID(1).String()), []byte{0x12, 0x20}, []byte{0x00, 0x24, 0x08, 0x01, 0x12, 0x20})
+		// multihash headers whose code or length varint overflows 64 bits, is over-long or never ends
+		for _, v := range [][]byte{
+			{0x80, 0x80, 0x80, 0x80, 0x80, 0x80, 0x80, 0x80, 0x80, 0x02},
+			{0xff, 0xff, 0xff, 0xff, 0xff, 0xff, 0xff, 0xff, 0xff, 0x7f},
+			{0x80, 0x80, 0x80, 0x80, 0x80, 0x80, 0x80, 0x80, 0x80, 0x80, 0x80, 0x01},
+			{0x81, 0x81, 0x81},
+			{0xff, 0xff, 0xff, 0xff, 0xff, 0xff, 0xff, 0xff, 0xff, 0x01},
+		} {
+			a := append(append([]byte{0x00}, v...), 0x01, 0x02)
+			b := append(append([]byte{}, v...), 0x02, 0x01, 0x02)
+			valid = append(valid, a, []byte(base58.Encode(a)), b, []byte(base58.Encode(b)))
+		}
 		// identity ids around key messages with unknown / huge / negative-as-int32 key types
 		rawPub, _ := k.GetPublic().Raw()
 		for _, kt := range []uint64{0, 2, 0x7fffffff, 0x80000000, 0xffffffff, ^uint64(0)} {
 			km := append(append([]byte{0x08}, uv(kt)...), append([]byte{0x12, 0x20}, rawPub...)...)
+			id := append([]byte{0x00, byte(len(km))}, km...)
+			valid = append(valid, id, []byte(base58.Encode(id)))
+		}
+		for _, n := range []int{0, 1, 31, 33, 34, 64, 65} {
+			kd := append(append([]byte{}, rawPub...), bytes.Repeat([]byte{0}, 64)...)[:n]
+			km := append([]byte{0x08, 0x01, 0x12, byte(n)}, kd...)
 			id := append([]byte{0x00, byte(len(km))}, km...)
 			valid = append(valid, id, []byte(base58.Encode(id)))
 		}
@@ -507,6 +541,11 @@ func Seeds(target string) [][]byte {
 		for _, kt := range []uint64{0, 2, 0x7fffffff, 0x80000000, 0xffffffff, ^uint64(0)} {
 			valid = append(valid, append(append([]byte{0x08}, uv(kt)...), append([]byte{0x12, 0x20}, rawPub...)...),
 				append(append([]byte{0x08}, uv(kt)...), append([]byte{0x12, 0x40}, rawPriv...)...))
+		}
+		for _, n := range []int{0, 1, 31, 33, 34, 63, 64, 65, 96, 128} {
+			kd := append(append([]byte{}, rawPriv...), bytes.Repeat([]byte{0}, 64)...)[:n]
+			pd := append(append([]byte{}, rawPub...), bytes.Repeat([]byte{0}, 96)...)[:n]
+			valid = append(valid, append([]byte{0x08, 0x01, 0x12, byte(n)}, kd...), append([]byte{0x08, 0x01, 0x12, byte(n)}, pd...))
 		}
 		for _, dl := range []uint64{1 << 31, 1 << 32, 1<<63 - 11, 1<<63 - 1, 1 << 63, ^uint64(0)} {
 			valid = append(valid, append([]byte{0x08, 0x01, 0x12}, uv(dl)...), append(append([]byte{0x08, 0x01, 0x12}, uv(dl)...), rawPub...))
